@@ -179,8 +179,8 @@ children of the node being written are already written or already on disk — ev
 together with the disk, is closed under children.  Hypotheses: the cached nodes are acyclic through the
 children relation (a rank bounded by the cache size decreases from each cached node to its cached children;
 true of hash-linked nodes unless a hash cycle exists) and every child of a cached node is cached or on disk;
-both are evaluated by the compiled model on every sampled Database state (`ordered-closed` in the state
-dump), and the write ORDER of the Go `Commit`/`Cap` is compared with the model's. -/
+both are evaluated by the compiled model on the state before every sampled `Commit` (`ordered-closed` in
+the answer to DBCOMMIT), and the write ORDER of the Go `Commit`/`Cap` is compared with the model's. -/
 theorem db_commit_children_first (s : Db.State) (root : Db.H32) (rk : Db.H32 → Nat)
     (hrk : ∀ n ∈ s.mem, ∀ k ∈ n.kids, (Db.find s.mem k).isSome → rk k < rk n.hash)
     (hbound : ∀ x, rk x ≤ s.mem.length)
